@@ -62,7 +62,11 @@
 (*    CLSetStore "provides eventual consistency across Nexus cluster        *)
 (*    nodes":                                                               *)
 (*    RemoteVisible      after a remote change for a key of this namespace  *)
-(*                       Get / Query show it (value, or not found)          *)
+(*                       Get / Query show it (value, or not found) - unless *)
+(*                       it is concurrent with a write of this replica      *)
+(*                       (this replica wrote the key without having seen    *)
+(*                       it, and it was made without having seen that       *)
+(*                       write): then they show the one or the other        *)
 (*    Isolation          a remote change for a key of another namespace     *)
 (*                       changes nothing this store's user can see and      *)
 (*                       calls none of his callbacks                        *)
